@@ -166,7 +166,8 @@ def run_cell(rec, cell):
     kw = {}
     if conf is not None:
         kw['transports'] = conf
-    sim = scen.make_sim(srv, server_kwargs=kw, websocket_available=ws_avail)
+    sim = scen.make_sim(srv, real_ws_driver=sum(cell[:8]) % 2 == 1,
+                        server_kwargs=kw, websocket_available=ws_avail)
     try:
         pop = prepare(sim, conf if ws_avail else 'polling')
         sidv = None
